@@ -148,19 +148,29 @@ def indexOf? (l : List Nat) (x : Nat) : Option Nat :=
     | y :: ys, n => if x == y then some n else go ys (n + 1)
   go l 0
 
-/-- Oracle at the end of a case (all workers finished, the receiver ran until it blocked),
-on the implementation's observations only. Returns the names of the violated clauses. -/
+def parseKind? : String → Option RKind
+  | "send" => some .send | "drain" => some .drain | "bad" => some .bad | _ => none
+def parseRes? : String → Option Res
+  | "ok" => some .ok | "sendErr" => some .sendErr | "invalidType" => some .invalidType
+  | "drainErr" => some .drainErr | _ => none
+
+/-- Oracle at the end of a case (all workers finished, the receiver ran until it blocked), on the
+implementation's observations only. The state clauses are `Admission.Obs.violations` — the function
+proved empty for the model in `Props/C07.lean` / `Props/C02.lean` (`oracle_holds_of_model`) —
+applied to the implementation's `Obs`; the remaining clauses need the executed schedule
+(`order`: conclusion of `C02.real_time_order_handled` at every split point) or concern return
+values the model does not have (`wrong-return`, `bad-accepted`). -/
 def oracleEnd (c : Case) (word : Word) (handled : List Nat) (sup : List String) (alive : Bool) : List String :=
   let sends := c.rets.filter (·.kind == "send")
   let oks := sends.filter (·.res == "ok")
   let drained := (sup.filter (· == "Terminated:Drained")).length
-  -- C02 (a): handled at most once, only messages whose send returned Ok
-  (if nodupNat handled then [] else ["handled-twice"]) ++
-  (if handled.all (fun i => oks.any (·.id == i)) then [] else ["handled-without-ok"]) ++
-  (if c.rets.all (fun r => !(r.res.startsWith "sendErrWrong") && r.res != "channelClosed" && !(r.res.startsWith "other")) then []
-    else ["wrong-return"]) ++
-  -- C02 (a): exactly once unless the actor exited for another reason
-  (if c.otherExit || oks.all (fun r => handled.contains r.id) then [] else ["ok-not-handled"]) ++
+  let obs : Obs :=
+    { rets := c.rets.filterMap (fun r => do
+        let k ← parseKind? r.kind; let res ← parseRes? r.res
+        pure ⟨k, r.id, res, r.late⟩),
+      handled := handled, word := word, drainedExits := drained, otherExit := c.otherExit, alive := alive }
+  obs.violations ++
+  (if c.rets.all (fun r => (parseKind? r.kind).isSome && (parseRes? r.res).isSome) then [] else ["wrong-return"]) ++
   -- C02 (b): real-time order ⇒ handling order
   (if oks.all (fun r1 => oks.all (fun r2 =>
       !(r1.retLine < r2.startLine) ||
@@ -170,15 +180,7 @@ def oracleEnd (c : Case) (word : Word) (handled : List Nat) (sup : List String) 
          | _, _ => true))) then [] else ["order"]) ++
   -- C02 (d): a wrong-type send returns InvalidActorType
   (if (c.rets.filter (·.kind == "bad")).all (·.res == "invalidType") then [] else ["bad-accepted"]) ++
-  -- C07 (1): nothing admitted after the close
-  (if sends.all (fun r => !r.late || r.res == "sendErr") then [] else ["admitted-after-close"]) ++
-  -- C07 (2)/(5): at quiescence no ticket is outstanding and closed ⇒ marker
-  (if word.count == 0 then [] else ["count-not-zero"]) ++
-  (if !word.closed || word.marker then [] else ["closed-without-marker"]) ++
-  -- C07 (3)/(5): exactly one "Drained" exit after a drain unless stop/kill intervened; never two
-  (if drained ≤ 1 then [] else ["drained-twice"]) ++
-  (if !c.drainClosed || c.otherExit || (drained == 1 && !alive) then [] else ["drain-never-finishes"]) ++
-  (if c.drainClosed || drained == 0 then [] else ["drained-without-drain"])
+  (if c.drainClosed == word.closed then [] else ["closed-bit-differs"])
 
 /-! ### free-running stress cases (oracle only) -/
 
